@@ -22,6 +22,7 @@ package c13
 import (
 	"context"
 	"errors"
+	"fmt"
 	"sort"
 	"sync"
 	"time"
@@ -113,6 +114,47 @@ type feed struct {
 	loadRev int64
 	cur     *fstream
 	trans   []titem
+	// reload bookkeeping (see refusalsWithoutLoad)
+	refused int       // consecutive Watch calls answered "compacted" since the last Get
+	stuck   bool      // the reload after a compaction is provably not happening
+	calls   []callRec // the most recent calls/answers on this feed, for witnesses
+}
+
+// refusalsWithoutLoad: how many Watch calls in a row go-zero may make at a compacted
+// revision, each answered "compacted" exactly as an etcd server answers it, without a
+// Get for the watched range in between, before the scripted etcd concludes that the
+// snapshot reload the statement speaks of is not going to happen. The unchanged tree
+// makes at most ONE such call (the re-watch after a broken stream) and then loads; a
+// tree that does not recognise the answer re-issues the same Watch for ever. The
+// decision counts calls - it does not measure time. From that call on the feed is
+// parked (the Watch is neither refused nor served), so go-zero stops spinning and the
+// history can be torn down.
+const refusalsWithoutLoad = 5
+
+const (
+	cGet = iota
+	cWatchServed
+	cWatchRefused
+	cWatchParked
+	cLiveCompacted
+	cBroken
+)
+
+type callRec struct {
+	kind   int8
+	rev    int64 // Get: revision of the snapshot; Watch: requested start revision (0 = from now)
+	aux    int64 // Get: number of keys; Watch: replayed events / compaction revision
+	serial int
+}
+
+const keepCalls = 16
+
+func (fe *feed) rec(kind int8, rev, aux int64) {
+	if len(fe.calls) == keepCalls {
+		copy(fe.calls, fe.calls[1:])
+		fe.calls = fe.calls[:keepCalls-1]
+	}
+	fe.calls = append(fe.calls, callRec{kind: kind, rev: rev, aux: aux, serial: fe.gets + fe.watches})
 }
 
 type fakeEtcd struct {
@@ -204,6 +246,8 @@ func (f *fakeEtcd) Get(_ context.Context, key string, opts ...clientv3.OpOption)
 	f.totGets++
 	f.lastGet = wk
 	fe.loadRev = f.rev
+	fe.refused = 0
+	fe.rec(cGet, f.rev, int64(len(keys)))
 	fe.trans = append(fe.trans, titem{kind: tSnap, snap: snap})
 	f.nSnaps++
 	f.poke()
@@ -220,18 +264,27 @@ func (f *fakeEtcd) Watch(ctx context.Context, key string, opts ...clientv3.OpOpt
 	f.totWatches++
 	fe.stalled = false
 	switch {
+	case fe.stuck || (start != 0 && start < f.compactRev && fe.refused >= refusalsWithoutLoad):
+		// parked: no answer at all, and no live events either (the stream counts as dead)
+		fe.stuck = true
+		st.dead = true
+		fe.rec(cWatchParked, start, f.compactRev)
 	case start != 0 && start < f.compactRev:
 		st.q = append(st.q, qitem{resp: clientv3.WatchResponse{Header: pb.ResponseHeader{Revision: f.rev},
 			Canceled: true, CompactRevision: f.compactRev}, terminal: true})
 		st.dead = true
 		f.nCompacted++
+		fe.refused++
+		fe.rec(cWatchRefused, start, f.compactRev)
 	case start != 0:
+		served := int64(0)
 		var evs []*clientv3.Event
 		for _, le := range f.log {
 			if le.rev >= start && wk.match(le.k) {
 				ev := mkEvent(le.op, le.rev)
 				fe.trans = append(fe.trans, titem{kind: tEvent, ev: le.op, replay: true})
 				f.nReplayed++
+				served++
 				if f.batchReplay {
 					evs = append(evs, ev)
 				} else {
@@ -242,6 +295,9 @@ func (f *fakeEtcd) Watch(ctx context.Context, key string, opts ...clientv3.OpOpt
 		if len(evs) > 0 {
 			st.q = append(st.q, qitem{resp: clientv3.WatchResponse{Header: pb.ResponseHeader{Revision: f.rev}, Events: evs}})
 		}
+		fe.rec(cWatchServed, start, served)
+	default:
+		fe.rec(cWatchServed, 0, 0)
 	}
 	f.mu.Unlock()
 	go f.pump(ctx, st)
@@ -382,6 +438,7 @@ func (f *fakeEtcd) breakStream(wk wkey, withCancel bool) {
 		return
 	}
 	fe.cur.dead = true
+	fe.rec(cBroken, 0, 0)
 	if withCancel {
 		fe.cur.push(qitem{resp: clientv3.WatchResponse{Header: pb.ResponseHeader{Revision: f.rev}, Canceled: true}, terminal: true})
 	} else {
@@ -421,9 +478,58 @@ func (f *fakeEtcd) compactLive(wk wkey) {
 		return
 	}
 	fe.cur.dead = true
+	fe.rec(cLiveCompacted, 0, f.compactRev)
 	fe.cur.push(qitem{resp: clientv3.WatchResponse{Header: pb.ResponseHeader{Revision: f.rev},
 		Canceled: true, CompactRevision: f.compactRev}, terminal: true})
 	f.nCompacted++
+}
+
+// probe queues a progress notification behind everything already queued on the live
+// stream of wk and returns a channel that is closed once go-zero has RECEIVED it. As
+// go-zero handles a stream sequentially (listeners are called from the handling of a
+// response), "received" means that every earlier response has been handled completely.
+// nil: there is no live stream to ask.
+func (f *fakeEtcd) probe(wk wkey) chan struct{} {
+	f.mu.Lock()
+	defer f.mu.Unlock()
+	fe := f.feeds[wk]
+	if fe == nil || fe.cur == nil || fe.cur.dead || fe.stalled {
+		return nil
+	}
+	done := make(chan struct{})
+	fe.cur.push(qitem{resp: clientv3.WatchResponse{Header: pb.ResponseHeader{Revision: f.rev}}, done: done})
+	f.nProgress++
+	return done
+}
+
+// callLog renders the most recent calls go-zero made on wk and what they were answered.
+func (f *fakeEtcd) callLog(wk wkey) []string {
+	f.mu.Lock()
+	defer f.mu.Unlock()
+	fe := f.feeds[wk]
+	if fe == nil {
+		return nil
+	}
+	out := make([]string, 0, len(fe.calls))
+	for _, c := range fe.calls {
+		var s string
+		switch c.kind {
+		case cGet:
+			s = fmt.Sprintf("Get(range) -> %d key(s) at revision %d", c.aux, c.rev)
+		case cWatchServed:
+			s = fmt.Sprintf("Watch(rev=%d) -> served, %d retained event(s) replayed", c.rev, c.aux)
+		case cWatchRefused:
+			s = fmt.Sprintf("Watch(rev=%d) -> canceled: required revision has been compacted (compact revision %d)", c.rev, c.aux)
+		case cWatchParked:
+			s = fmt.Sprintf("Watch(rev=%d) -> (not answered: still below compact revision %d and no Get since the compaction was reported; the harness gives up on this watch)", c.rev, c.aux)
+		case cLiveCompacted:
+			s = fmt.Sprintf("(live stream) <- canceled with compact revision %d, channel closed", c.aux)
+		case cBroken:
+			s = "(live stream) <- ended by the scripted etcd"
+		}
+		out = append(out, fmt.Sprintf("#%d %s", c.serial, s))
+	}
+	return out
 }
 
 // progress sends a progress notification and waits until go-zero received it.
@@ -480,25 +586,39 @@ func (f *fakeEtcd) waitCalls(wk wkey, gets, watches int) bool {
 // waitLive waits until go-zero has (re-)established a watch on wk that the scripted
 // etcd did not answer with "compacted": the reload sequence, whatever it consisted
 // of, is then over on go-zero's side.
-func (f *fakeEtcd) waitLive(wk wkey, watches int) bool {
+//
+// wlStuck is the causal counterpart of the watchdog: go-zero kept asking for a
+// compacted revision without loading (refusalsWithoutLoad), so waiting longer cannot
+// change anything.
+func (f *fakeEtcd) waitLive(wk wkey, watches int) int {
 	t := time.NewTimer(patience())
 	defer t.Stop()
 	for {
 		f.mu.Lock()
 		fe := f.feeds[wk]
+		stuck := fe != nil && fe.stuck
 		ok := fe != nil && fe.watches >= watches && fe.cur != nil && !fe.cur.dead
 		f.mu.Unlock()
-		if ok {
-			return true
+		switch {
+		case stuck:
+			return wlStuck
+		case ok:
+			return wlLive
 		}
 		select {
 		case <-f.note:
 		case <-t.C:
 			fired()
-			return false
+			return wlTimeout
 		}
 	}
 }
+
+const (
+	wlLive = iota
+	wlStuck
+	wlTimeout
+)
 
 func (f *fakeEtcd) totals() (int, int, wkey) {
 	f.mu.Lock()
